@@ -5,12 +5,19 @@ use crate::dlt::{DltMessage, DltMessageIndexType};
 struct MinHeapEntry<'a> {
     m: DltMessage,
     it: Box<dyn Iterator<Item = DltMessage> + 'a>,
+    /// rank of the iterator by the reception time of its first message. Used as tie-breaker
+    /// so that the merged order does not depend on the order the iterators were passed in.
+    rank: usize,
 }
 
 impl Ord for MinHeapEntry<'_> {
     fn cmp(&self, other: &Self) -> Ordering {
         // self.m.reception_time_us.cmp(&other.m.reception_time_us) // regular, we do need reverse
-        other.m.reception_time_us.cmp(&self.m.reception_time_us) // reversed
+        other
+            .m
+            .reception_time_us
+            .cmp(&self.m.reception_time_us) // reversed
+            .then_with(|| other.rank.cmp(&self.rank))
     }
 }
 
@@ -21,7 +28,7 @@ impl PartialOrd for MinHeapEntry<'_> {
 }
 impl PartialEq for MinHeapEntry<'_> {
     fn eq(&self, other: &Self) -> bool {
-        self.m.reception_time_us == other.m.reception_time_us
+        self.m.reception_time_us == other.m.reception_time_us && self.rank == other.rank
     }
 }
 impl Eq for MinHeapEntry<'_> {}
@@ -47,10 +54,16 @@ impl<'a> SortingMultiReaderIterator<'a> {
         its: Vec<Box<dyn Iterator<Item = DltMessage> + 'a>>,
     ) -> SortingMultiReaderIterator<'a> {
         let mut min_heap = BinaryHeap::with_capacity(its.len());
+        let mut firsts = Vec::with_capacity(its.len());
         for mut it in its.into_iter() {
             if let Some(m) = it.next() {
-                min_heap.push(MinHeapEntry { m, it });
+                firsts.push((m, it));
             }
+        }
+        // stable: iterators that start at the same time keep the order they were passed in
+        firsts.sort_by_key(|(m, _)| m.reception_time_us);
+        for (rank, (m, it)) in firsts.into_iter().enumerate() {
+            min_heap.push(MinHeapEntry { m, it, rank });
         }
         SortingMultiReaderIterator {
             index: start_index,
@@ -83,8 +96,9 @@ impl Iterator for SortingMultiReaderIterator<'_> {
             m.index = self.index;
             self.index += 1;
             let mut it = heap_entry.it;
+            let rank = heap_entry.rank;
             if let Some(m) = it.next() {
-                self.min_heap.push(MinHeapEntry { m, it })
+                self.min_heap.push(MinHeapEntry { m, it, rank })
             }
             Some(m)
         } else {
